@@ -18,7 +18,10 @@ from ..rng import H
 from ..simfs import FS, SimCrash
 from ..world import Arena, rmtree_real
 
-BACKENDS = ("tree", "bare", "vdir")
+# "treecfg"/"barecfg": git stores of the older layout, whose properties live in an
+# [xandikos] section of the repository config (RepoCollectionMetadata) instead of a
+# committed .xandikos file
+BACKENDS = ("tree", "bare", "vdir", "tree", "bare", "vdir", "treecfg", "barecfg")
 
 
 def git_blob_id(data):
@@ -50,7 +53,7 @@ def create_store(backend, path):
         from xandikos.store.vdir import VdirStore
 
         st = VdirStore.create(path)
-    elif backend == "bare":
+    elif backend.startswith("bare"):
         from xandikos.store.git import BareGitStore
 
         st = BareGitStore.create(path)
@@ -58,6 +61,10 @@ def create_store(backend, path):
         from xandikos.store.git import TreeGitStore
 
         st = TreeGitStore.create(path)
+    if backend.endswith("cfg"):
+        cfg = st.repo.get_config()
+        cfg.set((b"xandikos",), b"type", b"calendar")
+        cfg.write_to_path()
     st.load_extra_file_handler(ICalendarFile)
     st.load_extra_file_handler(VCardFile)
     return st
@@ -89,6 +96,12 @@ def read_meta(st, backend):
             out[k] = getattr(st, g)()
         except KeyError:
             out[k] = None
+    if backend.endswith("cfg"):
+        # stored explicitly there (elsewhere the type is a guess from the members)
+        try:
+            out["type"] = st.get_type()
+        except KeyError:
+            out["type"] = None
     return out
 
 
